@@ -26,6 +26,14 @@ P12 == << <<"tick">>, <<"tick">>, <<"tick">>, <<"tick">>, <<"trig", 1>>, <<"wr",
           <<"nmt", 128>>, <<"nmt", 1>>, <<"tick">>, <<"tick">>, <<"tick">>, <<"tick">>, <<"tick">>, <<"wr", "a", <<34>>>> >>
 P12B == << <<"nmt", 128>>, <<"nmt", 1>>, <<"pool">>, <<"trig", 1>>, <<"trig", 1>>, <<"tick">>, <<"pool">>, <<"trig", 1>>, <<"tick">>, <<"tick">>, <<"tick">>, <<"tick">>, <<"pool">> >>
 PNone == <<>>
+\* ---- C12R: the 16-bit value range of event time (ms) and inhibit time (100 us): values with the top bit set; the countdowns are
+\*      followed for the first ticks only (BoundP), the armed timers are visible as timer-pool occupancy
+TC12R == << TC(FALSE, 389, 254, 20, 3, 1, <<M("a", 8), Z4, Z4, Z4>>) >>
+L12R == {<<"nmt", 1>>, <<"nmt", 128>>, <<"tick">>, <<"trig", 1>>,
+         <<"cfg", "cid", TRUE, 1, <<133, 1, 0, 192>>>>, <<"cfg", "cid", TRUE, 1, <<133, 1, 0, 64>>>>,
+         <<"cfg", "evt", TRUE, 1, 3>>, <<"cfg", "evt", TRUE, 1, 32768>>, <<"cfg", "evt", TRUE, 1, 65535>>, <<"cfg", "inh", TRUE, 1, 40000>>, <<"cfg", "inh", TRUE, 1, 65535>>}
+P12R == << <<"pool">>, <<"rdcfg", "evt", TRUE, 1>>, <<"rdcfg", "inh", TRUE, 1>>, <<"tick">>, <<"tick">>, <<"pool">>, <<"trig", 1>>, <<"pool">>, <<"tick">>, <<"trig", 1>>,
+           <<"nmt", 128>>, <<"nmt", 1>>, <<"pool">>, <<"tick">>, <<"tick">>, <<"pool">> >>
 \* ---- C12V: "triggered by a CHANGED asynchronous object" for every width: values that differ from the stored one in exactly
 \*      one byte (each byte position), written by SDO, by the application and by an RPDO; unchanged values re-written
 TC12V == << TC(FALSE, 389, 254, 0, 0, 3, <<M("a", 8), M("W", 16), M("L", 32), Z4>>) >>
